@@ -5,6 +5,9 @@
    (shuffle/blend/widen/pack order) is tied by the cross-build correspondence (see DESIGN.md). *)
 From Coq Require Import ZArith List Arith.
 From NTT Require Import Functors ScalarOps Simd SimdKernels Layer Expr ExprExec.
+From NTT Require VecSem GenVecEq.
+From NTT.gen Require GenVec.
+Import ListNotations.
 Local Open Scope Z_scope.
 
 (* addmod<uint32_t/uint16_t, sse/avx2>: the signed-compare trick = the scalar functor in every lane, any lane count *)
@@ -57,3 +60,58 @@ Theorem C05_butterfly_lane : forall w p wt wt' a b, 1 < w -> 0 < p -> 4 * p <= 2
   lane_bfly w p wt wt' a b = bfly_lazy w p wt wt' a b.
 Proof. exact lane_bfly_scalar. Qed.
 Print Assumptions C05_butterfly_lane.
+
+(* THE SOURCE ITSELF (gen/GenVec.v: the SSE / AVX2 kernels translated from include/nfl/opt/arch/{sse,avx2}.hpp on every run, every
+   intrinsic -- including shuffles, blends, 64-bit multiplies, shifts -- given its word-level meaning in VecSem.v): in every lane the
+   translated kernels compute the scalar functor / the per-lane model above *)
+Theorem C05_source_sse_addmod32 : forall p x0 x1 x2 x3 y0 y1 y2 y3, 0 < p -> 2 * p <= 2 ^ 32 ->
+  0 <= x0 < p -> 0 <= x1 < p -> 0 <= x2 < p -> 0 <= x3 < p -> 0 <= y0 < p -> 0 <= y1 < p -> 0 <= y2 < p -> 0 <= y3 < p ->
+  GenVec.gen_sse_addmod_u32 p [x0; x1; x2; x3] [y0; y1; y2; y3] = [addmod 32 p x0 y0; addmod 32 p x1 y1; addmod 32 p x2 y2; addmod 32 p x3 y3].
+Proof. exact GenVecEq.sse_addmod32. Qed.
+Print Assumptions C05_source_sse_addmod32.
+Theorem C05_source_sse_submod32 : forall p x0 x1 x2 x3 y0 y1 y2 y3, 0 < p -> 2 * p <= 2 ^ 32 ->
+  0 <= x0 < p -> 0 <= x1 < p -> 0 <= x2 < p -> 0 <= x3 < p -> 0 <= y0 < p -> 0 <= y1 < p -> 0 <= y2 < p -> 0 <= y3 < p ->
+  GenVec.gen_sse_submod_u32 p [x0; x1; x2; x3] [y0; y1; y2; y3] = [submod 32 p x0 y0; submod 32 p x1 y1; submod 32 p x2 y2; submod 32 p x3 y3].
+Proof. exact GenVecEq.sse_submod32. Qed.
+Print Assumptions C05_source_sse_submod32.
+(* mulmod_shoup<uint32_t, sse>: two passes on 64-bit lanes (even words, then the shuffled odd words), shift, blend *)
+Theorem C05_source_sse_mulmod_shoup32 : forall p x0 x1 x2 x3 y0 y1 y2 y3 z0 z1 z2 z3, 0 < p < 2 ^ 31 ->
+  0 <= x0 < 2 ^ 32 -> 0 <= x1 < 2 ^ 32 -> 0 <= x2 < 2 ^ 32 -> 0 <= x3 < 2 ^ 32 -> 0 <= y0 < 2 ^ 32 -> 0 <= y1 < 2 ^ 32 -> 0 <= y2 < 2 ^ 32 -> 0 <= y3 < 2 ^ 32 ->
+  0 <= z0 < 2 ^ 32 -> 0 <= z1 < 2 ^ 32 -> 0 <= z2 < 2 ^ 32 -> 0 <= z3 < 2 ^ 32 ->
+  GenVec.gen_sse_mulmod_shoup_u32 p [x0; x1; x2; x3] [y0; y1; y2; y3] [z0; z1; z2; z3] =
+  [lane_mulshoup32 p x0 y0 z0; lane_mulshoup32 p x1 y1 z1; lane_mulshoup32 p x2 y2 z2; lane_mulshoup32 p x3 y3 z3].
+Proof. exact GenVecEq.sse_mulmod_shoup32. Qed.
+Print Assumptions C05_source_sse_mulmod_shoup32.
+(* the vector butterflies, for ALL lane contents *)
+Theorem C05_source_sse_butterfly32 : forall p a0 a1 a2 a3 b0 b1 b2 b3 i0 i1 i2 i3 w0 w1 w2 w3, 0 < p -> 4 * p <= 2 ^ 32 ->
+  0 <= a0 < 2 ^ 32 -> 0 <= a1 < 2 ^ 32 -> 0 <= a2 < 2 ^ 32 -> 0 <= a3 < 2 ^ 32 -> 0 <= b0 < 2 ^ 32 -> 0 <= b1 < 2 ^ 32 -> 0 <= b2 < 2 ^ 32 -> 0 <= b3 < 2 ^ 32 ->
+  0 <= i0 < 2 ^ 32 -> 0 <= i1 < 2 ^ 32 -> 0 <= i2 < 2 ^ 32 -> 0 <= i3 < 2 ^ 32 ->
+  GenVec.gen_sse_ntt_loop_body_u32 p [a0; a1; a2; a3] [b0; b1; b2; b3] [i0; i1; i2; i3] [w0; w1; w2; w3] =
+  (map fst [lane_bfly 32 p w0 i0 a0 b0; lane_bfly 32 p w1 i1 a1 b1; lane_bfly 32 p w2 i2 a2 b2; lane_bfly 32 p w3 i3 a3 b3],
+   map snd [lane_bfly 32 p w0 i0 a0 b0; lane_bfly 32 p w1 i1 a1 b1; lane_bfly 32 p w2 i2 a2 b2; lane_bfly 32 p w3 i3 a3 b3]).
+Proof. exact GenVecEq.sse_bfly32. Qed.
+Print Assumptions C05_source_sse_butterfly32.
+Theorem C05_source_avx2_butterfly32 : forall p a0 a1 a2 a3 a4 a5 a6 a7 b0 b1 b2 b3 b4 b5 b6 b7 i0 i1 i2 i3 i4 i5 i6 i7 w0 w1 w2 w3 w4 w5 w6 w7, 0 < p -> 4 * p <= 2 ^ 32 ->
+  Forall (fun v => 0 <= v < 2 ^ 32) [a0; a1; a2; a3; a4; a5; a6; a7; b0; b1; b2; b3; b4; b5; b6; b7; i0; i1; i2; i3; i4; i5; i6; i7] ->
+  let L := [lane_bfly 32 p w0 i0 a0 b0; lane_bfly 32 p w1 i1 a1 b1; lane_bfly 32 p w2 i2 a2 b2; lane_bfly 32 p w3 i3 a3 b3;
+            lane_bfly 32 p w4 i4 a4 b4; lane_bfly 32 p w5 i5 a5 b5; lane_bfly 32 p w6 i6 a6 b6; lane_bfly 32 p w7 i7 a7 b7] in
+  GenVec.gen_avx2_ntt_loop_body_u32 p [a0; a1; a2; a3; a4; a5; a6; a7] [b0; b1; b2; b3; b4; b5; b6; b7] [i0; i1; i2; i3; i4; i5; i6; i7] [w0; w1; w2; w3; w4; w5; w6; w7] = (map fst L, map snd L).
+Proof. exact GenVecEq.avx2_bfly32. Qed.
+Print Assumptions C05_source_avx2_butterfly32.
+Theorem C05_source_avx2_addsub32 : forall p x0 x1 x2 x3 x4 x5 x6 x7 y0 y1 y2 y3 y4 y5 y6 y7, 0 < p -> 2 * p <= 2 ^ 32 ->
+  Forall (fun v => 0 <= v < p) [x0; x1; x2; x3; x4; x5; x6; x7; y0; y1; y2; y3; y4; y5; y6; y7] ->
+  GenVec.gen_avx2_addmod_u32 p [x0; x1; x2; x3; x4; x5; x6; x7] [y0; y1; y2; y3; y4; y5; y6; y7] =
+    [addmod 32 p x0 y0; addmod 32 p x1 y1; addmod 32 p x2 y2; addmod 32 p x3 y3; addmod 32 p x4 y4; addmod 32 p x5 y5; addmod 32 p x6 y6; addmod 32 p x7 y7] /\
+  GenVec.gen_avx2_submod_u32 p [x0; x1; x2; x3; x4; x5; x6; x7] [y0; y1; y2; y3; y4; y5; y6; y7] =
+    [submod 32 p x0 y0; submod 32 p x1 y1; submod 32 p x2 y2; submod 32 p x3 y3; submod 32 p x4 y4; submod 32 p x5 y5; submod 32 p x6 y6; submod 32 p x7 y7].
+Proof. exact GenVecEq.avx2_addsub32. Qed.
+Print Assumptions C05_source_avx2_addsub32.
+(* 16-bit limbs: two lanes per 32-bit word (mk16 lo hi) *)
+Theorem C05_source_sse_addsub16 : forall p x0 x1 x2 x3 x4 x5 x6 x7 y0 y1 y2 y3 y4 y5 y6 y7, 0 < p -> 2 * p <= 2 ^ 16 ->
+  Forall (fun v => 0 <= v < p) [x0; x1; x2; x3; x4; x5; x6; x7; y0; y1; y2; y3; y4; y5; y6; y7] ->
+  GenVec.gen_sse_addmod_u16 p [VecSem.mk16 x0 x1; VecSem.mk16 x2 x3; VecSem.mk16 x4 x5; VecSem.mk16 x6 x7] [VecSem.mk16 y0 y1; VecSem.mk16 y2 y3; VecSem.mk16 y4 y5; VecSem.mk16 y6 y7] =
+    [VecSem.mk16 (addmod 16 p x0 y0) (addmod 16 p x1 y1); VecSem.mk16 (addmod 16 p x2 y2) (addmod 16 p x3 y3); VecSem.mk16 (addmod 16 p x4 y4) (addmod 16 p x5 y5); VecSem.mk16 (addmod 16 p x6 y6) (addmod 16 p x7 y7)] /\
+  GenVec.gen_sse_submod_u16 p [VecSem.mk16 x0 x1; VecSem.mk16 x2 x3; VecSem.mk16 x4 x5; VecSem.mk16 x6 x7] [VecSem.mk16 y0 y1; VecSem.mk16 y2 y3; VecSem.mk16 y4 y5; VecSem.mk16 y6 y7] =
+    [VecSem.mk16 (submod 16 p x0 y0) (submod 16 p x1 y1); VecSem.mk16 (submod 16 p x2 y2) (submod 16 p x3 y3); VecSem.mk16 (submod 16 p x4 y4) (submod 16 p x5 y5); VecSem.mk16 (submod 16 p x6 y6) (submod 16 p x7 y7)].
+Proof. exact GenVecEq.sse_addsub16. Qed.
+Print Assumptions C05_source_sse_addsub16.
